@@ -672,6 +672,36 @@ class History:
                                  got, h.all_errors()),
                              {'op': ['probe_event', ns]})
 
+    def do_connect_again(self):
+        """connect() on a client that is connected is refused and changes
+        nothing: the namespaces, session ids and the parameters kept for a
+        reconnection stay those of the live connection."""
+        h, ctx = self.h, self.ctx
+        if not (self.up and self.accepted and h.c.connected):
+            return
+        op = ['connect_again']
+        self.ops.append(op)
+        n_att = len(h.attempts)
+        nframes = len(self.connect_frames)
+        exc = None
+        try:
+            h.api('connect', 'http://elsewhere',
+                  namespaces=['/other'], auth={'other': 1}, wait=True)
+        except Exception as e:
+            exc = e
+        ctx.count('connects_while_connected')
+        if exc is None or type(exc).__name__ != 'ConnectionError':
+            return self.fail('connect() on a connected client %s' % (
+                'returned' if exc is None else 'raised %r' % exc),
+                {'op': op})
+        if len(h.attempts) != n_att or len(self.connect_frames) != nframes:
+            return self.fail('connect() on a connected client reached the '
+                             'transport', {'op': op})
+        if h.all_errors():
+            return self.fail('error escaped: %s' % h.all_errors()[0]['exc'],
+                             {'op': op})
+        self.mirror('after a refused second connect()')
+
     def do_partial_binary(self):
         """Half of a binary event, then the connection ends."""
         h = self.h
@@ -702,6 +732,8 @@ class History:
             return self.do_server_disconnect()
         if r < 0.63:
             return self.do_partial_binary()
+        if r > 0.96:
+            return self.do_connect_again()
         if r < 0.9:
             return self.end_all(rng.choice(['client_disconnect',
                                             'server_close', 'lose', 'lose']))
@@ -921,6 +953,7 @@ def run(ctx):
     ctx.require('bad_namespace_checked', 30)
     ctx.require('disconnect_accounting', 50)
     ctx.require('post_reconnect_probes', 10)
+    ctx.require('connects_while_connected', 5)
     ctx.require('default_namespace_with_catch_all_handlers_only', 5)
     ctx.require('reconnections_with_callable_auth', 5)
     ctx.require('partial_binary_then_end', 5)
